@@ -104,6 +104,7 @@ type interpreter struct {
 	wk        *workerCtx
 	bigUsed   []*bigBuf
 	guards    map[*omap]guard
+	locksets  map[*omap]map[*mutexObj]bool
 	deferGo   bool // template mode: goroutines started by initialisers are started after the snapshot
 	pendingGo []pendingGo
 }
